@@ -171,6 +171,36 @@ def check(prop, stats=None):
                                       "after %s the result on the same object differs from the result on a fresh object with the same vertices: %s" % (mname, r),
                                       dict(kind="reuse", prop=prop, name=name, mover=mname)))
             break
+    # another object of the same size and connectivity in between: results must not leak from one object to another
+    # (the reference is computed in a forked worker whose module state is that of *before* the sequence)
+    for k, (name, kind, fn) in enumerate(API.get(prop, [])):
+        def ref_job(kind=kind, fn=fn):
+            with core.quiet():
+                m = make(kind)
+                return fn(m, args(m))
+        ref = core.run_limited(ref_job, (), 120.0)
+        try:
+            with core.quiet():
+                other = make(kind)
+                movers(kind)[-1 if kind == "tet" else 2][1](other)          # same counts, different geometry
+                fn(other, args(other))
+                m = make(kind)
+                got = fn(m, args(m))
+        except RuntimeError as e:
+            if "exactly singular" in str(e):
+                continue
+            got = None
+        except Exception as e:  # noqa: BLE001
+            fails.append(core.Failure("correspondence", "object independence: " + name, "raised %s: %s" % (type(e).__name__, str(e)[:100]), dict(kind="reuse", prop=prop, name=name)))
+            continue
+        if ref[0] != "ok" or got is None:
+            continue
+        if stats is not None:
+            stats.monitor("results compared after the same function ran on another mesh of equal size")
+        r = _cmp(got, ref[1], 1e-6 if prop in ("C03", "C04", "C18", "C19", "C08") else 1e-9)
+        if r:
+            fails.append(core.Failure("correspondence", "object independence: " + name,
+                                      "the result depends on a mesh of the same size processed before: %s" % r, dict(kind="reuse", prop=prop, name=name)))
     for name, first, second in SOLVER_SEQ.get(prop, []):
         try:
             with core.quiet():
